@@ -276,18 +276,33 @@ func writerCases(r *rng.R, n int) {
 				propFail("C15 writechunk-modifies-callers-slices case=cw-%d chunk %d: header %s content %s lent to WriteChunk came back as %s / %s", i, j, hx(hWant), hx(cWant), hx(h), hx(c))
 			}
 			h, c = hWant, cWant
-			if len(fs.sent) != before+1 {
-				propFail("C15 writechunk-message-count sent %d messages for one chunk", len(fs.sent)-before)
+			if len(fs.sent) == before {
+				propFail("C15 writechunk-message-count no message sent for a chunk (header=%s content=%s)", hx(h), hx(c))
 				continue
+			}
+			// the receiver's rule: the messages of this call, concatenated, are the chunk; exactly the
+			// last one is marked end of chunk (how many messages a chunk takes is the writer's business:
+			// the model's answer - one - is the tie below, not the property)
+			var cat []byte
+			endsOK := true
+			for k, m := range fs.sent[before:] {
+				cat = append(cat, m.StefBytes...)
+				if m.IsEndOfChunk != (k == len(fs.sent)-before-1) {
+					endsOK = false
+				}
 			}
 			m := fs.sent[len(fs.sent)-1]
 			e := 0
 			if m.IsEndOfChunk {
 				e = 1
 			}
-			emit(fmt.Sprintf("cw chunk %s %s", hx(h), hx(c)), fmt.Sprintf("%s:%d", hx(m.StefBytes), e))
-			if !bytes.Equal(m.StefBytes, append(append([]byte(nil), h...), c...)) || !m.IsEndOfChunk {
-				propFail("C15 writechunk-content header=%s content=%s sent=%s end=%v", hx(h), hx(c), hx(m.StefBytes), m.IsEndOfChunk)
+			if len(fs.sent) == before+1 {
+				emit(fmt.Sprintf("cw chunk %s %s", hx(h), hx(c)), fmt.Sprintf("%s:%d", hx(m.StefBytes), e))
+			} else {
+				emit(fmt.Sprintf("cw chunk %s %s", hx(h), hx(c)), fmt.Sprintf("%d-messages", len(fs.sent)-before))
+			}
+			if !bytes.Equal(cat, append(append([]byte(nil), h...), c...)) || !endsOK {
+				propFail("C15 writechunk-content header=%s content=%s sent=%s in %d messages, end-of-chunk marks in place: %v", hx(h), hx(c), hx(cat), len(fs.sent)-before, endsOK)
 			}
 			stats["writechunks"]++
 		}
@@ -300,7 +315,7 @@ func writerCases(r *rng.R, n int) {
 // written, and the real assembler must deliver their bytes and count them. Not replayed on the
 // model (the lines would be megabytes long): the oracle is the harness's.
 func writerBigCases(r *rng.R) {
-	sizes := []int{4<<20 - 1024 - 3, 4<<20 - 1024 + 1 + r.Intn(900), 4<<20 - 1024 + 512}
+	sizes := []int{4<<20 - 1024 - 3, 4<<20 - 1024 + 1 + r.Intn(900), 4<<20 - 1024 + 512, 1 << 20, 2 << 20, 1<<20 + 1, 64 << 10}
 	if os.Getenv("VERIF_TIER") == "thorough" {
 		sizes = append(sizes, 4<<20-1024, 4<<20-1024+1, 4<<20-1, 4<<20+1, 9<<20+r.Intn(1000))
 	}
